@@ -128,7 +128,13 @@ def run(ctx, col: Collector):
                 raise AnchorMissing(fname)
             act = [a for a in gs[0].actions if a.name == fname][0]
             ok = False
-            for x in ast.walk(act.node):
+            from ..inline import inline_function
+            try:
+                act_node = inline_function(idx, idx.func(act.module, fname), depth=2)
+            except Exception:
+                act_node = act.node
+            reads_prop = any(isinstance(x, ast.Subscript) and isinstance(x.slice, ast.Constant) and x.slice.value == PROP for x in ast.walk(act_node))
+            for x in ast.walk(act_node):
                 if isinstance(x, ast.DictComp) and len(x.generators) == 1 and not x.generators[0].ifs:
                     gen = x.generators[0]
                     if (isinstance(gen.iter, ast.Subscript) and isinstance(gen.iter.slice, ast.Constant) and gen.iter.slice.value == PROP
@@ -138,9 +144,29 @@ def run(ctx, col: Collector):
                 if isinstance(x, ast.Call) and norm(x.func) == 'dict' and x.args and isinstance(x.args[0], ast.Subscript) \
                         and isinstance(x.args[0].slice, ast.Constant) and x.args[0].slice.value == PROP:
                     ok = True
-            col.check(ok, 'C15-form', f'{fname}:dict-of-all-pairs', f'{fname} stores every (key, value) pair in order',
-                      f'{fname} does not build the properties dict as {{k: v for k, v in tok[{PROP!r}]}}: keys, values or order may change',
-                      node=act.node, file=act.module.replace('.', '/') + '.py')
+            # positive evidence of a lossy build: a comprehension over the matches that filters, swaps or rewrites the pairs
+            lossy = None
+            for x in ast.walk(act_node):
+                if isinstance(x, (ast.DictComp, ast.ListComp, ast.GeneratorExp, ast.SetComp)) and len(x.generators) == 1:
+                    gen = x.generators[0]
+                    if isinstance(gen.iter, ast.Subscript) and isinstance(gen.iter.slice, ast.Constant) and gen.iter.slice.value == PROP:
+                        if gen.ifs:
+                            lossy = f'`{norm(x)[:80]}` filters the matches'
+                        elif isinstance(x, ast.DictComp) and isinstance(gen.target, ast.Tuple) and len(gen.target.elts) == 2 and \
+                                (norm(x.key) != norm(gen.target.elts[0]) or norm(x.value) != norm(gen.target.elts[1])):
+                            lossy = f'`{norm(x)[:80]}` does not map each key to its own value unchanged'
+                        elif isinstance(x, ast.SetComp):
+                            lossy = f'`{norm(x)[:80]}` loses the order'
+            cons = f'{fname}:dict-of-all-pairs'
+            fpath = act.module.replace('.', '/') + '.py'
+            if ok:
+                col.ok('C15-form', cons, f'{fname} stores every (key, value) pair in order', node=act.node, file=fpath)
+            elif lossy:
+                col.bad('C15-form', cons, f'{fname} builds the properties from {lossy}: keys, values or order change', node=act.node, file=fpath)
+            elif not reads_prop:
+                col.bad('C15-form', cons, f'{fname} never reads tok[{PROP!r}]: declared properties are dropped', node=act.node, file=fpath)
+            else:
+                col.unk('C15-form', cons, f'{fname} reads tok[{PROP!r}] but the way it builds the properties dict is not recognised', node=act.node, file=fpath)
     guarded(col, 'C15-form', 'property-form', form)
 
     def value_roundtrip():
@@ -202,7 +228,9 @@ def run(ctx, col: Collector):
         sites = [('pydbml.renderer.dbml.default.column', 'render_options', ('model.table.database',)),
                  ('pydbml.renderer.dbml.default.table', 'render_table', ('model.database',))]
         for mod, fname, _ in sites:
-            fi = idx.func(mod, fname)
+            from ..inline import inlined_info
+            from ..cond import copy_subst
+            fi = inlined_info(idx, idx.func(mod, fname), depth=2, keep={'name_to_dbml', 'quote_string', 'string_to_dbml', 'note_option_to_dbml', 'comment_to_dbml'})
             p = [a.arg for a in fi.node.args.args][0]
             paths = paths_of(fi, 1)
 
@@ -219,7 +247,13 @@ def run(ctx, col: Collector):
                 for i, ev in enumerate(path):
                     if emits(ev):
                         n_emit += 1
-                        lits = [c for e2 in path[:i] if e2.kind == 'test' for c in conjuncts(term(e2.node, e2.outcome))]
+                        lits = []
+                        seen_stmts: List[ast.AST] = []
+                        for e2 in path[:i]:
+                            if e2.kind == 'stmt':
+                                seen_stmts.append(e2.node)
+                            elif e2.kind == 'test':
+                                lits.extend(conjuncts(term(e2.node, e2.outcome, copy_subst(seen_stmts))))
                         gate = [l for l in lits if l[0] == 'truthy' and l[1].endswith('.allow_properties')]
                         if not gate:
                             bad = bad or (ev, 'no test of `<database>.allow_properties` was true before it')
@@ -239,8 +273,19 @@ def run(ctx, col: Collector):
                       f'{fname} emits properties on a path where {bad[1] if bad else ""} (`{norm(bad[0].node) if bad and bad[0].node is not None else ""}`): '
                       f'the render-time gate is missing or inverted', node=bad[0].node if bad and bad[0].node is not None else fi.node, file=fi.file)
             # no caching of the flag: it is read inside the function from the model
+            single: dict = {}
+            for st_ in walk_no_nested(fi.node):
+                if isinstance(st_, ast.Assign) and len(st_.targets) == 1 and isinstance(st_.targets[0], ast.Name):
+                    single.setdefault(st_.targets[0].id, []).append(st_.value)
+
+            def rooted(path_: str, depth: int = 0) -> bool:
+                head = path_.split('.', 1)[0]
+                if head == p:
+                    return True
+                vals = single.get(head, [])
+                return depth < 4 and len(vals) == 1 and access_path(vals[0]) is not None and rooted(access_path(vals[0]), depth + 1)
             cached = [n for n in walk_no_nested(fi.node) if isinstance(n, ast.Attribute) and n.attr == 'allow_properties'
-                      and not (access_path(n) or '').startswith(p + '.')]
+                      and not rooted(access_path(n) or '')]
             col.check(not cached, 'C15-gate', f'{fname}:flag-read-from-model', 'the flag is read from the model at render time',
                       f'{fname} reads allow_properties from `{norm(cached[0]) if cached else ""}`, not through the rendered object: flipping the '
                       f'database flag would not switch rendering', node=cached[0] if cached else fi.node, file=fi.file)
